@@ -308,3 +308,146 @@ def l_alias(L):
         L.check('%s is an empty subclass of %s' % (alias, base), ok, backend='syntactic')
         init = open(os.path.join(L.repo, 'pyPRISM/closure/__init__.py')).read()
         L.check('%s exported from pyPRISM.closure' % alias, ('import %s' % alias) in init or (', %s' % alias) in init or ('%s,' % alias) in init, backend='syntactic')
+
+
+# --------------------------------------------------------------------------- C10: the contact clause
+
+@lemma('contact-point-is-inside-the-core', props=['C10'])
+def l_contact(L):
+    """C10: a grid point that coincides with sigma to the tolerance System.check uses (tol, read from its source) is
+    contact, i.e. inside the core, for every pair alike.  With the verified specs of the hard-core potentials
+    (u_i == high_value iff r_i <= sigma) this requires  |r_i - sigma| < tol ==> r_i <= sigma,  which is false."""
+    import ast
+    import os
+    import z3
+    src = open(os.path.join(L.repo, 'pyPRISM/core/System.py')).read()
+    tol = None
+    for n in ast.walk(ast.parse(src)):
+        if isinstance(n, ast.FunctionDef) and n.name == 'check':
+            for a in ast.walk(n):
+                if isinstance(a, ast.Assign) and isinstance(a.targets[0], ast.Name) and a.targets[0].id == 'tol' and isinstance(a.value, ast.Constant):
+                    tol = a.value.value
+    L.check('System.check defines the on-grid tolerance as a literal', tol is not None, backend='syntactic')
+    if tol is None:
+        return
+    r, s, high = z3.Reals('r_i sigma high_value')
+    u = z3.If(r > s, z3.RealVal(0), high)              # spec of HardSphere.calculate (contracts/potential.py), pointwise
+    ok = L.prove('|r_i - sigma| < tol ==> u_i == high_value  (hard-core potentials treat an on-grid sigma as contact)',
+                 z3.Implies(z3.And(r - s < z3.RealVal(repr(tol)), s - r < z3.RealVal(repr(tol))), u == high), [high > 0])
+    if not ok:
+        # replay on the real code: the domain grid of dr = 0.1 holds 1.2000000000000002 where sigma = 1.2 is meant
+        import numpy as np
+        import pyPRISM
+        d = pyPRISM.Domain(dr=0.1, length=64)
+        wit = []
+        for sig in (1.0, 1.2, 1.5, 0.7, 2.0):
+            hs = pyPRISM.potential.HardSphere(sigma=sig)
+            uu = hs.calculate(d.r)
+            i = int(np.argmin(np.abs(d.r - sig)))
+            wit.append({'sigma': sig, 'grid point': float(d.r[i]), 'on grid by System.check': bool(abs(d.r[i] - sig) < tol),
+                        'treated as': 'core' if uu[i] == hs.high_value else 'outside'})
+        L.obligations[-1]['witness'] = {'replayed on HardSphere with Domain(dr=0.1)': wit, 'solver model': L.obligations[-1].get('witness')}
+        L.obligations[-1]['detail'] = 'pairs whose sigma is on the grid are treated differently: ' + ', '.join(
+            'sigma=%s -> %s' % (w['sigma'], w['treated as']) for w in wit)
+
+
+# --------------------------------------------------------------------------- C04: invariance under reformulations
+
+@lemma('type-permutation-equivariance', props=['C04'])
+def l_perm(L):
+    """Re-ordering the type list conjugates every per-wavenumber matrix with one permutation matrix Q (Q Q^T = 1); the
+    element-wise (Hadamard) density scalings and the type-keyed reads/writes commute with it (C13: access is by type
+    name through typeMap; C15/C16: densities, diameters, closures, potentials, omegas are keyed by type name).  The
+    matrix part of cost's postcondition is equivariant:  H(Q W Q^T, Q C Q^T) = Q H(W, C) Q^T  -- roots map to roots."""
+    rg = Ring()
+    W, C, J, Q, Qt, H, J2, H2 = rg.consts('W C J Q Qt H J2 H2')
+    cj = lambda X: rg.mul(rg.mul(Q, X), Qt)
+    WC = rg.mul(W, C)
+    base = rg.axioms + [rg.mul(Qt, Q) == rg.one, rg.mul(Q, Qt) == rg.one] + rg.inverse_of(J, rg.sub(rg.one, WC)) + [H == rg.mul(rg.mul(J, WC), W)]
+    p1 = rg.mul(cj(W), cj(C)) == cj(WC)
+    L.prove('conj(W) conj(C) == conj(W C)', p1, base)
+    p2 = cj(rg.one) == rg.one
+    L.prove('conj(1) == 1', p2, base)
+    p3 = cj(rg.sub(rg.one, WC)) == rg.sub(rg.one, rg.mul(cj(W), cj(C)))
+    L.prove('conj(1 - W C) == 1 - conj(W) conj(C)', p3, rg.axioms + [p1, p2])
+    p4a = rg.mul(cj(J), cj(rg.sub(rg.one, WC))) == cj(rg.mul(J, rg.sub(rg.one, WC)))
+    L.prove('conj(J) conj(1 - W C) == conj(J (1 - W C))', p4a, base)
+    p4 = rg.mul(cj(J), rg.sub(rg.one, rg.mul(cj(W), cj(C)))) == rg.one
+    L.prove('conj(J) is the inverse of 1 - conj(W) conj(C)', p4, base + [p3, p4a, p2])
+    p5 = rg.mul(rg.mul(cj(J), rg.mul(cj(W), cj(C))), cj(W)) == cj(H)
+    L.prove('conj(J) conj(W) conj(C) conj(W) == conj(H)   [the permuted system has the permuted solution]', p5, base + [p1])
+    import numpy as np
+    rng = np.random.RandomState(3)
+    n = 3
+    w = rng.randn(n, n); w = 0.2 * (w + w.T)
+    c = rng.randn(n, n); c = 0.2 * (c + c.T)
+    q = np.eye(n)[[2, 0, 1]]
+    Hm = lambda w_, c_: np.linalg.inv(np.eye(n) - w_ @ c_) @ w_ @ c_ @ w_
+    L.check('numeric model: H(QWQ^T, QCQ^T) == Q H Q^T', np.allclose(Hm(q @ w @ q.T, q @ c @ q.T), q @ Hm(w, c) @ q.T), backend='numeric')
+    L.check('canary: a non-orthogonal relabelling matrix breaks it', not np.allclose(Hm(2 * q @ w @ q.T, q @ c @ q.T), q @ Hm(w, c) @ q.T, rtol=1e-6), backend='numeric')
+
+
+@lemma('energy-scaling-invariance', props=['C04'])
+def l_scale(L):
+    """Each shipped potential spec is homogeneous of degree one in its energy parameters, so U_lambda(r)/(lambda kT) =
+    U(r)/kT: by PRISM.__init__'s contract every closure receives the same reduced potential, cost is the same function,
+    and pmf = -kT ln g (C05 spec) is multiplied by lambda."""
+    from contracts.potential import LJ126
+    lam, eps, s, x, high, alpha, kT, g, rc = z3.Reals('lam eps sigma r high alpha kT lng rcut')
+    pos = [lam > 0, kT > 0, x > 0, s > 0]
+    ex = z3.Function('exp', R, R)
+    L.prove('LennardJones: LJ(lam eps) == lam LJ(eps)', LJ126(lam * eps, s, x) == lam * LJ126(eps, s, x), pos)
+    L.prove('shifted LJ / WCA: (LJ(r) - LJ(rc)) scales with lam', LJ126(lam * eps, s, x) - LJ126(lam * eps, s, rc) == lam * (LJ126(eps, s, x) - LJ126(eps, s, rc)), pos + [rc > 0])
+    L.prove('HardSphere / hard cores: lam*high and 0 scale with lam', z3.If(x > s, z3.RealVal(0), lam * high) == lam * z3.If(x > s, z3.RealVal(0), high), pos)
+    L.prove('Exponential: -(lam eps) exp(-(r-sigma)/alpha) scales with lam', -(lam * eps) * ex(-(x - s) / alpha) == lam * (-eps * ex(-(x - s) / alpha)), pos)
+    L.prove('HardCoreLennardJones tail scales with lam', (lam * eps) * ((s / x) ** 12 - 2 * (s / x) ** 6) == lam * (eps * ((s / x) ** 12 - 2 * (s / x) ** 6)), pos)
+    u = z3.Real('u')
+    L.prove('reduced potential unchanged: (lam u)/(lam kT) == u/kT', (lam * u) / (lam * kT) == u / kT, pos)
+    L.prove('pmf scales: -(lam kT) ln g == lam (-(kT ln g))', -((lam * kT) * g) == lam * (-(kT * g)), pos)
+    L.expect_unprovable('canary: a potential with an energy-independent offset is not homogeneous', LJ126(lam * eps, s, x) + 1 == lam * (LJ126(eps, s, x) + 1), pos)
+
+
+@lemma('species-split-invariance', props=['C04'])
+def l_split(L):
+    """Splitting one species (density rho, omega W1 = rho*omega, solution h, c of the rank-1 PRISM equation
+    rho^2 h = c W1 (W1 + rho^2 h)) into A and A' with rho_A + rho_B = rho and split omegas obeying the sum rule
+    sum_b W_ab = (rho_a/rho) W1 (SingleSite/NoIntra; exact block omegas): then H_ab = rho_a rho_b h, C_ab = c solves the
+    2x2 PRISM equation H = W C (W + H): g_AA = g_AB = g_BB = g.  Pins site density = rho_a on / rho_a+rho_b off the
+    diagonal and pair density = rho_a rho_b (C15), which is how W and H are scaled (C01/C16)."""
+    wAA, wAB, wBB, rA, rB, c, h, W1 = z3.Reals('wAA wAB wBB rhoA rhoB c h W1')
+    rho = rA + rB
+    asm = [rA > 0, rB > 0, wAA + wAB == rA * W1 / rho, wAB + wBB == rB * W1 / rho, rho * rho * h == c * W1 * (W1 + rho * rho * h)]
+    Wm = [[wAA, wAB], [wAB, wBB]]
+    Cm = [[c, c], [c, c]]
+    Hm = [[rA * rA * h, rA * rB * h], [rA * rB * h, rB * rB * h]]
+    mm = lambda X, Y: [[sum(X[i][k] * Y[k][j] for k in range(2)) for j in range(2)] for i in range(2)]
+    WpH = [[Wm[i][j] + Hm[i][j] for j in range(2)] for i in range(2)]
+    RHS = mm(mm(Wm, Cm), WpH)
+    for i, a in enumerate('AB'):
+        for j, b in enumerate('AB'):
+            L.prove('[W C (W + H)]_%s%s == H_%s%s == rho_%s rho_%s h' % (a, b, a, b, a, b), RHS[i][j] == Hm[i][j], asm, timeout_ms=60000)
+    # the shipped monatomic split (SingleSite on, NoIntra off the diagonal; site density rho_a on the diagonal) obeys the sum rule
+    L.prove('SingleSite/NoIntra split obeys the sum rule', z3.And(rA * 1 + (rA + rB) * 0 == rA * (rho * 1) / rho, (rA + rB) * 0 + rB * 1 == rB * (rho * 1) / rho), [rA > 0, rB > 0])
+    L.expect_unprovable('canary: with pair density rho_a + rho_b instead of rho_a rho_b the split solution fails',
+                        mm(mm(Wm, Cm), [[Wm[i][j] + (rA + rB) * h for j in range(2)] for i in range(2)])[0][1] == (rA + rB) * h, asm)
+
+
+# --------------------------------------------------------------------------- C02: dilute limit
+
+@lemma('dilute-limit', props=['C02'])
+def l_dilute(L):
+    """From cost's contract for a single-site molecule (omega = 1, Omega = rho): hhat = chat/(1 - rho chat), so
+    hhat - chat = rho chat^2/(1 - rho chat) = O(rho): at vanishing density gamma = h - c -> 0 solves the equations and
+    g = 1 + F(0, u), which by the C09 spec functions is exp(-u) (PY, HNC) and 1 - u (MSA, outside the core).
+    second_virial (C05 spec) is -hhat(k->0)/2 -> -chat(0)/2 = -2 pi sum (e^-u - 1) r (r - dr/2) dr by the C08 Riemann-sum lemma."""
+    rho, ch, hh = z3.Reals('rho chat hhat')
+    asm = [rho > 0, 1 - rho * ch != 0, hh == ((1 / (1 - rho * ch)) * (rho * ch) * rho) / (rho * rho)]
+    L.prove('hhat == chat / (1 - rho chat)', hh == ch / (1 - rho * ch), asm)
+    L.prove('hhat - chat == rho chat^2/(1 - rho chat)  (vanishes with the density)', hh - ch == rho * ch * ch / (1 - rho * ch), asm)
+    u = z3.Real('u')
+    ex = z3.Function('exp', R, R)
+    L.prove('PY:  1 + F_PY(0,u)  == exp(-u)', 1 + F_PY(z3.RealVal(0), u) == ex(-u), [])
+    L.prove('HNC: 1 + F_HNC(0,u) == exp(-u)', 1 + F_HNC(z3.RealVal(0), u) == ex(0 - u), [])
+    L.prove('MSA: 1 + F_MSA(0,u) == 1 - u', 1 + F_MSA(z3.RealVal(0), u) == 1 - u, [])
+    B2, pi, S = z3.Reals('B2 pi S')
+    L.prove('B2 == -hhat(0)/2 with hhat(0) == 4 pi S  ==>  B2 == -2 pi S', z3.Implies(z3.And(B2 == -hh / 2, hh == 4 * pi * S), B2 == -2 * pi * S), [])
